@@ -1,7 +1,8 @@
 #!/usr/bin/env python3
-"""Debug helper: vgen.py <template> <out.rs> -- writes the generated Verus file (no canary)."""
+"""Debug helper: vgen.py <template> <out.rs> [TOKEN=value ...] -- writes the generated Verus file (no canary)."""
 import sys, os
 sys.path.insert(0, os.path.dirname(os.path.abspath(__file__)))
 import vextract
-ex = vextract.build(sys.argv[1], os.environ.get("VERIF_REPO", "/repo"))
+subst = dict(a.split("=", 1) for a in sys.argv[3:])
+ex = vextract.build(sys.argv[1], os.environ.get("VERIF_REPO", "/repo"), subst=subst)
 open(sys.argv[2], "w").write(ex.text)
